@@ -1,18 +1,16 @@
 (** TIE "graphs": the iteration-graph enumeration regenerated from
     /repo/src/tensora/desugar/_to_iteration_graphs.py (gen/IterGraphs.v) against the hand model
     model/Graphs.v.  Statements only; proofs in proofs/GenGraphs_equiv.v; reading of generators /
-    exceptions / itertools in model/GraphsIter.v; notes in design.d/TIE_graphs.md.
-
-    [_partial]: proved under the hypothesis [simplify_hyp fval] (the regenerated simplify_add, with the
-    fuel the translator supplies, returns the image of the model's simplify_add).  That hypothesis is
-    about one regenerated function only, is tested by the self-check and has the computed instance
-    [simplify_hyp_instance]; it is NOT yet proved in general (design.d/TIE_graphs.md, "What remains"). *)
+    exceptions / itertools in model/GraphsIter.v; notes in design.d/TIE_graphs.md. *)
 From Coq Require Import ZArith List Bool String.
 From TV Require Import spec.Num spec.PyLib model.GraphsIter gen.ExhaustAst gen.Desugar gen.IterGraphs.
-From TV Require model.Graphs.
+From TV Require model.Graphs model.OutputOrder.
+From TV Require proofs.OutputOrderWalk.
 From TV Require Import proofs.GenGraphs_equiv.
 Import ListNotations.
 Module M := TV.model.Graphs.
+Module O := TV.model.OutputOrder.
+Module W := TV.proofs.OutputOrderWalk.
 
 (** legal_iteration_orders: same orders, same order of enumeration, never raises *)
 Theorem TIE_graphs_legal_iteration_orders_equiv : forall f,
@@ -51,12 +49,18 @@ Theorem TIE_graphs_target_order_supported_equiv : forall fval ol bottom tgt,
 Proof. exact gen_target_order_supported_equiv. Qed.
 Print Assumptions TIE_graphs_target_order_supported_equiv.
 
-Theorem TIE_graphs_merge_assignment_equiv_partial : forall fval, simplify_hyp fval ->
-  forall ol bottom e tgt, tgt_ok ol tgt ->
+Theorem TIE_graphs_simplify_add_equiv : forall fval name ts,
+  simplify_add (S (ig_graph_size (IgSumNode sum_name (map (up_graph fval) ts))))
+               (IgSumNode sum_name (map (up_graph fval) ts))
+  = POk (up_graph fval (M.simplify_add name ts)).
+Proof. exact gen_simplify_add_equiv. Qed.
+Print Assumptions TIE_graphs_simplify_add_equiv.
+
+Theorem TIE_graphs_merge_assignment_equiv : forall fval ol bottom e tgt, tgt_ok ol tgt ->
   merge_assignment (tgt_graph fval bottom tgt) (up_graph fval e) ol
   = (map (up_graph fval) (M.merge_assignment e tgt), None).
-Proof. exact gen_merge_assignment_equiv_partial. Qed.
-Print Assumptions TIE_graphs_merge_assignment_equiv_partial.
+Proof. exact gen_merge_assignment_equiv. Qed.
+Print Assumptions TIE_graphs_merge_assignment_equiv.
 
 (** to_iteration_graphs_tensor: same chains in the same order; DiagonalAccessError exactly when the
     model says RDiagonal; another exception (KeyError / IndexError), raised before anything is
@@ -67,8 +71,35 @@ Proof. exact gen_tensor_graphs_equiv. Qed.
 Print Assumptions TIE_graphs_tensor_graphs_equiv.
 
 (** the whole expression family (laziness of nested generators included: [M.for_both]) *)
-Theorem TIE_graphs_expr_graphs_equiv_partial : forall fval, simplify_hyp fval ->
-  forall e fs c,
+Theorem TIE_graphs_expr_graphs_equiv : forall fval e fs c,
   rel fval (to_iteration_graphs_expression (up_dexpr fval e) (up_formats fs)) (M.expr_graphs e fs c).
-Proof. exact gen_expr_graphs_equiv_partial. Qed.
-Print Assumptions TIE_graphs_expr_graphs_equiv_partial.
+Proof. exact gen_expr_graphs_equiv. Qed.
+Print Assumptions TIE_graphs_expr_graphs_equiv.
+
+(** the top level.  [to_iteration_graphs_src] (proofs/GenGraphs_equiv.v) is the model of TODAY's source:
+    model/Graphs.v's to_iteration_graphs with the filter of commit 601f2d3 ([target_supported]) on the
+    target chains.  [target_fmt_ok]: the output format has at least as many modes as ordering entries
+    (guaranteed by Format.__post_init__). *)
+Theorem TIE_graphs_to_iteration_graphs_equiv : forall fval a fs,
+  target_fmt_ok a fs = true ->
+  rel fval (to_iteration_graphs (up_assign fval a) (up_formats fs)) (to_iteration_graphs_src a fs).
+Proof. exact to_iteration_graphs_equiv. Qed.
+Print Assumptions TIE_graphs_to_iteration_graphs_equiv.
+
+Example TIE_graphs_ex_fmt_ok :
+  target_fmt_ok (M.mkDA (M.mkDT 0 "a" ["i"]) (M.DTensor (M.mkDT 1 "b" ["i"])))
+                [("a", M.mkFormat [M.Compressed] [0]); ("b", M.mkFormat [M.Dense] [0])] = true.
+Proof. reflexivity. Qed.
+
+(** C08_internal_iff_first_graph_bad for the enumeration of today's source *)
+Theorem TIE_graphs_internal_iff_first_graph_bad : forall a fs ks,
+  generate_src a fs ks = O.InternalAppendNextOutput
+  <-> (O.first_graph_bad_r a fs (to_iteration_graphs_src a fs) = true /\ ks <> []).
+Proof. exact gen_internal_iff_first_graph_bad. Qed.
+Print Assumptions TIE_graphs_internal_iff_first_graph_bad.
+
+(** C08_generate_outcomes_typed_partial for the enumeration of today's source *)
+Theorem TIE_graphs_generate_outcomes_typed_partial : forall a fs ks,
+  O.wf_problem a fs = true -> W.typed_partial (generate_src a fs ks).
+Proof. exact gen_generate_outcomes_typed_partial. Qed.
+Print Assumptions TIE_graphs_generate_outcomes_typed_partial.
